@@ -22,7 +22,9 @@ LEVEL = "exploration"
 RULE = (
     "cases = write histories against one Avro file written by the real AvroWriter (RecordWriter('x.avro')): a descriptor of "
     "1-13 fields over the 13 Avro-mapped types (+ the 4 reserved fields) and 1-40 records (thorough: up to 1500, crossing "
-    "several 16 kB Avro blocks); enumerated part: every cell of the matrix mapped type x value class (none/empty/boundary/"
+    "several 16 kB Avro blocks; thorough also descriptors of 25 / 60 fields and histories of 1500-6000 records); the writer is "
+    "flushed only at the end, after every accepted record, after every 7th, or at random points (mid-file flushes cut Avro "
+    "blocks at arbitrary places); enumerated part: every cell of the matrix mapped type x value class (none/empty/boundary/"
     "random/hostile + the unmappable classes out_of_range/surrogate/digest; boundaries 2^31, 2^63, epoch +-1us, 2^32 us, "
     "year 1 / 9999, single-precision limits) is forced into the first record of a history, every kind of second record "
     "type (other name, renamed/extra/dropped/reordered field, other flow type with the same Avro type) and every unmapped "
@@ -35,7 +37,8 @@ RULE = (
     "(RecordDescriptor(name, [])): N records differing only in the reserved slots, then a record of another type / another "
     "field-less type, a field-less record after a normal type, an empty GroupedRecord first; the sink is a path or an "
     "io.BytesIO handed to AvroWriter; the second-type / unmapped / grouped / field-less / out-of-range refusal workloads are "
-    "re-run in child interpreters under -O, -OO, PYTHONOPTIMIZE=1|2 with the same oracle; Avro written to the REAL stdout "
+    "a copy pipeline feeds the writer from two record-stream sources of one type plus an equal descriptor re-created in "
+    "between (equal, not identical descriptor objects are one record type); re-run in child interpreters under -O, -OO, PYTHONOPTIMIZE=1|2 with the same oracle; Avro written to the REAL stdout "
     "of a child (RecordWriter('avro://-'|'avro://'), rdump -w avro://-) x writer finished by close() alone / with-block / "
     "flush+close / garbage collection x 0/1/3/2500 records, parsed by the parent with fastavro and the library; three modes: clean (only mappable records), stop (close after the "
     "first refusal), continue (keep writing after refusals).  Oracle (independent model verif/avro_c19.py, never "
@@ -63,7 +66,7 @@ ASSUMPTIONS = [
     "the writer is always flushed explicitly before close (close-without-flush is C17's subject)",
 ]
 SHARDS = {"quick": 8, "thorough": 16}
-BUDGET_S = {"quick": 150, "thorough": 900}
+BUDGET_S = {"quick": 150, "thorough": 1500}
 
 ANCHORS = [
     "flow.record.adapter.avro:descriptor_to_schema",
@@ -115,14 +118,17 @@ def teardown(ctx):
 
 def generate(ctx):
     for j, case in enumerate(_generate(ctx)):
-        if case["k"] not in ("multi", "optimized", "stdout-child") and "sink" not in case:
-            case["sink"] = "bytesio" if (j % 3 == 2) else "path"
+        if case["k"] not in ("multi", "optimized", "stdout-child"):
+            if "sink" not in case:
+                case["sink"] = "bytesio" if (j % 3 == 2) else "path"
+            # flush pattern: only at the end / after every accepted record / after every 7th / at random points
+            case["flush"] = (None, 1, None, 7, "rand")[j % 5]
         yield case
 
 
 def _generate(ctx):
     idx = 0
-    reps = ctx.scale(5, 12)
+    reps = ctx.scale(5, 100)
     bad_classes = set(sum(am.BAD_CLASSES.values(), ()))
     for rep in range(reps):
         for t, vc in am.all_cells():
@@ -152,6 +158,11 @@ def _generate(ctx):
                         yield {"k": "fieldless", "shape": shape, "mode": mode, "sink": sink,
                                "s": subseed("c19", ctx.seed, "fieldless", shape, mode, sink, rep)}
                     idx += 1
+        for mode in ("clean", "continue"):
+            for sink in ("path", "bytesio"):
+                if ctx.mine(idx):
+                    yield {"k": "merge", "mode": mode, "sink": sink, "s": subseed("c19", ctx.seed, "merge", mode, sink, rep)}
+                idx += 1
         for pair in ("coincident", "same-name"):
             for order in ("ab", "ba"):
                 for layout in ("sequential", "open-together"):
@@ -178,11 +189,11 @@ def _generate(ctx):
                 if ctx.mine(idx):
                     yield {"k": "unmapped", "ut": ut, "pos": pos, "mode": mode, "s": subseed("c19", ctx.seed, "unmapped", ut, pos, rep)}
                 idx += 1
-    for i in range(ctx.scale(3, 16)):  # many records crossing Avro block boundaries, refusals sprinkled in
+    for i in range(ctx.scale(3, 200)):  # many records crossing Avro block boundaries, refusals sprinkled in
         if ctx.mine(idx):
-            yield {"k": "big", "mode": ("continue", "clean")[i % 2], "n": ctx.scale(400, 1500), "s": subseed("c19", ctx.seed, "big", i)}
+            yield {"k": "big", "mode": ("continue", "clean")[i % 2], "n": ctx.scale(400, (1500, 3000, 6000)[i % 3]), "s": subseed("c19", ctx.seed, "big", i)}
         idx += 1
-    for i in range(ctx.scale(100, 1000)):
+    for i in range(ctx.scale(100, 10000)):
         yield {"k": "mix", "mode": MODES[i % 3], "s": subseed("c19", ctx.seed, "mix", ctx.shard, i)}
 
 
@@ -212,7 +223,7 @@ def build_history(case, thorough):
     rng = random.Random(case["s"])
     k, mode = case["k"], case["mode"]
     must = [case["t"]] if k == "cell" else []
-    desc = am.make_descriptor(rng, must=must, digest_p=0.04 if k != "big" else 0.0)
+    desc = am.make_descriptor(rng, must=must, digest_p=0.04 if k != "big" else 0.0, wide=thorough and k != "big")
     if k == "big":
         n = case["n"]
     else:
@@ -238,6 +249,37 @@ def build_history(case, thorough):
         else:
             at = rng.randint(1, len(recs))
             recs = recs[:at] + intruders[:1] + recs[at:] + intruders[1:]
+    if k == "merge":
+        # copy pipeline: the records reach the Avro writer from TWO record-stream sources that each define the type
+        # themselves, with a record of an equal descriptor re-created by the program in between: equal, not identical
+        # descriptor objects all denote the file's one record type
+        import gc
+
+        from flow.record import RecordDescriptor, RecordStreamReader, RecordStreamWriter
+
+        def through_stream(records):
+            buf = io.BytesIO()
+            w = RecordStreamWriter(buf)
+            for r in records:
+                w.write(r)
+            w.flush()
+            data = buf.getvalue()
+            w.fp = None
+            return list(RecordStreamReader(io.BytesIO(data)))
+
+        good = [r for r in recs if am.record_problem(r) is None]
+        bad = [r for r in recs if am.record_problem(r) is not None]  # offered directly, between the two sources
+        half = max(1, len(good) // 2)
+        first, second = through_stream(good[:half]), through_stream(good[half:])
+        gc.collect()
+        again = RecordDescriptor(str(desc.name), [(str(t), str(n)) for t, n in desc.get_field_tuples()])
+        mid = [r for r in [am.make_record(rng, again, bad=False, thorough=thorough)] if am.record_problem(r) is None]
+        recs = History(first + mid + bad + second)
+        # the second source is READ WHILE the writer is open: each of its records is unpacked (descriptor included) right
+        # before it is written, as a reader -> writer pipeline does
+        for i in range(len(first), len(recs)):
+            if am.record_problem(recs[i]) is None:
+                recs.hooks[i] = (lambda r: (lambda: through_stream([r])[0]))(recs[i])
     if k == "fieldless":
         from flow.record import GroupedRecord, RecordDescriptor
 
@@ -279,6 +321,14 @@ def build_history(case, thorough):
             at = rng.randint(1, len(recs))
             recs = recs[:at] + [u] + recs[at:]
     return recs
+
+
+class History(list):
+    """Offered records + hooks {index: callable -> record} run right before that record is written (lazy sources)."""
+
+    def __init__(self, *a):
+        super().__init__(*a)
+        self.hooks = {}
 
 
 def classify(recs):
@@ -669,6 +719,7 @@ def execute(ctx, case):
     accepted, refused = [], []
     sink = case.get("sink", "path")
     buf = None
+    flush_every, flush_rng, n_flushes = case.get("flush"), random.Random(case["s"] ^ 0xF1), 0
     try:
         if sink == "bytesio":
             from flow.record.adapter.avro import AvroWriter
@@ -679,6 +730,11 @@ def execute(ctx, case):
             w = RecordWriter(path)
         try:
             for i, r in enumerate(recs):
+                hook = getattr(recs, "hooks", {}).get(i)
+                if hook is not None:
+                    r = recs[i] = hook()
+                    before[i] = observe.obs(r)
+                    ctx.event("lazily_produced_records")
                 try:
                     w.write(r)
                 except Exception as e:  # noqa: BLE001 - which exception class is left open by the property
@@ -693,6 +749,9 @@ def execute(ctx, case):
                 else:
                     accepted.append(i)
                     ctx.event("accepted:" + (status[i][1] or "mappable"))
+                    if flush_every and (len(accepted) % flush_every == 0 if flush_every != "rand" else flush_rng.random() < 0.2):
+                        w.flush()
+                        n_flushes += 1
         finally:
             w.flush()
             w.close()
@@ -705,6 +764,8 @@ def execute(ctx, case):
         with open(path, "wb") as f:  # the readers below take the bytes from a file
             f.write(buf.getvalue())
     ctx.event("sink:" + sink)
+    ctx.event("flush_pattern:%s" % (flush_every or "end-only"))
+    ctx.event("mid_file_flushes", n_flushes)
     if [observe.obs(r) for r in recs] != before:
         ctx.violation(None, "writing to Avro mutated a record")
     expected = [recs[i] for i in accepted]
@@ -791,6 +852,9 @@ def execute(ctx, case):
         ctx.cell("second-type", case["variant"], case["pos"])
     elif case["k"] == "unmapped":
         ctx.cell("unmapped", case["ut"], case["pos"])
+    elif case["k"] == "merge":
+        ctx.cell("merge", mode, sink)
+        ctx.event("merge_distinct_descriptor_objects", len({id(r._desc) for r in recs}))
     elif case["k"] == "fieldless":
         ctx.cell("fieldless", case["shape"], mode, sink)
     elif case["k"] == "grouped":
